@@ -408,4 +408,7 @@ func TestC06(t *testing.T) {
 	d := c06Src
 	d.Checks = n(3, 40)
 	d.Run(t)
+	e := c06Disk
+	e.Checks = n(40, 600)
+	e.Run(t)
 }
